@@ -282,7 +282,9 @@ func checkTrim(c *harness.Ctx, p *profile.Profile, o c04.Opt, w *world, t trimOp
 		return ""
 	}
 	// ---------- top
-	out, e := run("top", false)
+	// text reports do not know call trees: the option, set at every third trim point, changes nothing
+	textCT := c.Rng.Intn(3) == 0
+	out, e := run("top", textCT)
 	if e != "" {
 		return "-top failed: " + e
 	}
@@ -321,7 +323,7 @@ func checkTrim(c *harness.Ctx, p *profile.Profile, o c04.Opt, w *world, t trimOp
 		}
 	}
 	// ---------- tree
-	out, e = run("tree", false)
+	out, e = run("tree", textCT)
 	if e != "" {
 		return "-tree failed: " + e
 	}
@@ -671,14 +673,146 @@ func runLegend(c *harness.Ctx) harness.Result {
 	return res
 }
 
+// part paths: file names rewritten by trim_path / source_path are part of an entry's identity at
+// the file-bearing granularities; the rows of a trimmed report must still be rows of the untrimmed
+// report of the same options, and as many as the cutoffs allow (pprof is its own reference here).
+func runPaths(c *harness.Ctx) harness.Result {
+	r := c.Rng
+	p := c04.GenReportProfile(r)
+	prefixes := []string{"/home/runner/work/app/app/", "/home/runner/work/app/app/app/", "app/app/", "/src/app/", "/proc/self/cwd/app/", "/work/", ""}
+	for _, f := range p.Function {
+		if f.Filename != "" {
+			f.Filename = prefixes[r.Intn(len(prefixes))] + strings.TrimLeft(f.Filename, "/")
+		}
+	}
+	strs := map[string]string{"sample_index": p.SampleType[r.Intn(len(p.SampleType))].Type}
+	switch r.Intn(3) {
+	case 0:
+		strs["source_path"] = []string{"/home/dev/src/app", "/x/app:/y/work", "/nonexistent/app/app", "/home/dev/cwd"}[r.Intn(4)]
+	case 1:
+		strs["trim_path"] = []string{"/home/runner", "/home/runner/work/app", "/home/runner/work/app:/src", "app"}[r.Intn(4)]
+	default:
+		strs["source_path"], strs["trim_path"] = "/home/dev/src/app", "/home/runner/work"
+	}
+	b := map[string]bool{[]string{"files", "lines", "filefunctions", "addresses", "functions"}[r.Intn(5)]: true}
+	if r.Intn(2) == 0 {
+		b["cum"] = true
+	} else {
+		b["flat"] = true
+	}
+	desc := fmt.Sprintf("%v %v", strs, b)
+	res := harness.Result{Sig: gen.Shape(p) + desc, Sample: map[string]any{"run": desc}}
+	type row struct {
+		name      string
+		flat, cum int64
+	}
+	var lastOut string
+	render := func(format string, n int, f float64) ([]row, parse.Header, string) {
+		bb := map[string]bool{format: true}
+		for k, v := range b {
+			bb[k] = v
+		}
+		out, _, rr := drv.Report(map[string]*profile.Profile{"p": p}, []string{"p"}, bb, strs, map[string]int{"nodecount": n}, map[string]float64{"nodefraction": f, "edgefraction": 0}, nil)
+		if rr.Panic != "" {
+			return nil, parse.Header{}, "panic: " + rr.Panic
+		}
+		if rr.Err != nil {
+			return nil, parse.Header{}, "error: " + rr.Err.Error()
+		}
+		var rows []row
+		var h parse.Header
+		lastOut = out
+		if format == "top" {
+			hh, tr, err := parse.Top(out)
+			if err != nil {
+				return nil, h, "unparseable: " + err.Error() + "\n" + out
+			}
+			h = hh
+			for _, x := range tr {
+				rows = append(rows, row{x.Name, x.Flat, x.Cum})
+			}
+		} else {
+			hh, tn, err := parse.Tree(out)
+			if err != nil {
+				return nil, h, "unparseable: " + err.Error() + "\n" + out
+			}
+			h = hh
+			for _, x := range tn {
+				rows = append(rows, row{x.Row.Name, x.Row.Flat, x.Row.Cum})
+			}
+		}
+		return rows, h, ""
+	}
+	for _, format := range []string{"top", "tree"} {
+		full, h, e := render(format, 0, 0)
+		if e != "" {
+			if strings.HasPrefix(e, "panic") {
+				return harness.Violation("%s -%s untrimmed: %s", desc, format, e)
+			}
+			c.Stat("paths.errors", 1)
+			return res
+		}
+		if len(full) >= 2 {
+			res.NonTrivial = true
+		}
+		var sumFlat int64
+		for _, x := range full {
+			sumFlat += x.flat
+		}
+		_ = h
+		for k := 0; k < 3; k++ {
+			n := []int{0, 1, 2, 3, len(full) - 1}[r.Intn(5)]
+			if n < 0 {
+				n = 0
+			}
+			f := []float64{0, 0, 0.01, 0.1, 0.3}[r.Intn(5)]
+			if len(full) > 0 && sumFlat != 0 && r.Intn(2) == 0 {
+				f = (float64(abs(full[r.Intn(len(full))].cum)) + 0.5) / float64(abs(sumFlat))
+			}
+			cut := abs(int64(float64(sumFlat) * f))
+			elig := 0
+			avail := map[row]int{}
+			for _, x := range full {
+				avail[x]++
+				if abs(x.cum) >= cut {
+					elig++
+				}
+			}
+			want := elig
+			if n > 0 && n < want {
+				want = n
+			}
+			got, _, e := render(format, n, f)
+			if e != "" {
+				return harness.Violation("%s -%s nodecount=%d nodefraction=%v: %s (the untrimmed report worked)", desc, format, n, f, e)
+			}
+			c.Stat("paths.trim_points", 1)
+			for _, x := range got {
+				if avail[x] == 0 {
+					res.Verdict = harness.Violated
+					res.Detail = fmt.Sprintf("%s -%s nodecount=%d nodefraction=%v shows the row %q flat=%d cum=%d, which is not a (remaining) row of the untrimmed report of the same options\nuntrimmed rows: %v\ntrimmed rows: %v", desc, format, n, f, x.name, x.flat, x.cum, full, got)
+					return res
+				}
+				avail[x]--
+			}
+			if len(got) != want {
+				res.Verdict = harness.Violated
+				res.Detail = fmt.Sprintf("%s -%s nodecount=%d nodefraction=%v shows %d rows; %d untrimmed rows reach the cutoff %d, so %d expected\nuntrimmed rows: %v\ntrimmed rows: %v\n%s", desc, format, n, f, len(got), elig, cut, want, full, got, harness.Trunc(lastOut, 1500))
+				return res
+			}
+		}
+	}
+	return res
+}
+
 func init() {
 	harness.Register(&harness.Check{
 		ID:    "C05",
 		Level: "exploration",
-		Rule: "report-class profiles (as C04) x granularity x noinlines x sample_index x 4 trim points: nodecount in {0,1,2,3,5,n-1,n,n+1}, nodefraction placed just below/at/above an actual |cum|/sum(flat) ratio (or 0, .005, .3, 1, 2), edgefraction around an actual edge ratio, flat/cum sort; rendered as -top, -tree, -dot and -dot -call_tree through the real driver; part legend: -top and -tree under -mean, -base and -diff_base (where entry values can exceed the report total) with random nodecount/nodefraction: 'accounting for' must equal the sum of the flat values shown. part interactive: 'top N', 'top N -cum' and 'top' typed into a fresh interactive session must print the table pprof -top -nodecount=N prints (10 for the bare command). " +
+		Rule: "report-class profiles (as C04) x granularity x noinlines x sample_index x 4 trim points: nodecount in {0,1,2,3,5,n-1,n,n+1}, nodefraction placed just below/at/above an actual |cum|/sum(flat) ratio (or 0, .005, .3, 1, 2), edgefraction around an actual edge ratio, flat/cum sort; rendered as -top, -tree, -dot and -dot -call_tree through the real driver; part legend: -top and -tree under -mean, -base and -diff_base (where entry values can exceed the report total) with random nodecount/nodefraction: 'accounting for' must equal the sum of the flat values shown. part paths: file names given prefixes that trim_path / source_path rewrite (including a directory name repeated in a row), file-bearing granularities, -top and -tree at 3 trim points: every trimmed row is a row of pprof's own untrimmed report of the same options and exactly min(N, #{|cum|>=cutoff}) rows are shown; text reports are also run with call_tree set, which must change nothing. part interactive: 'top N', 'top N -cum' and 'top' typed into a fresh interactive session must print the table pprof -top -nodecount=N prints (10 for the bare command). " +
 			"oracle: shown entries carry their untrimmed flat/cum; text reports show exactly min(N, #{|cum|>=cutoff}) entries, none below the cutoff, no hidden eligible entry outranking a shown one, rows ordered by the sort magnitude; legends (accounting for, Dropped K nodes, top N of M) match; every edge joins shown entries; solid edges carry the untrimmed direct adjacency weight, dotted edges the adjacency over the shown entries with at least one bypassing sample; -tree completeness at the edge cutoff; call trees: <=1 parent, edge weight = child's cum, every node matches a distinct untrimmed tree node. non-trivial = at least 2 untrimmed entries; distinct = profile shape",
 		Assumptions:   []string{"node cutoff = |trunc(sum of untrimmed flat x nodefraction)|, edge cutoff likewise (documented rule)", "cases in which two untrimmed entries share a printable name are skipped (entries are identified by name in the output)", "graphical reports pick survivors heuristically: only invariance, cutoff and nodecount bound are checked for -dot"},
-		Parts:         []harness.Part{{Name: "trim", Quick: 8000, Thor: 200000, Run: runCase}, {Name: "interactive", Quick: 150, Thor: 4000, Run: runInteractive}, {Name: "legend", Quick: 1500, Thor: 60000, Run: runLegend}},
+		Parts:         []harness.Part{{Name: "trim", Quick: 8000, Thor: 200000, Run: runCase}, {Name: "interactive", Quick: 150, Thor: 4000, Run: runInteractive}, {Name: "legend", Quick: 1500, Thor: 60000, Run: runLegend}, {Name: "paths", Quick: 1200, Thor: 40000, Run: runPaths}},
 		MinNonTrivial: func(string) int { return 300 },
 		Finish: func(tier string, st map[string]int64) string {
 			if st["residual_edges_seen"] == 0 {
